@@ -253,3 +253,75 @@ Definition flex_op (pv : option N) (t : ty) (a : N) (op : fop) (bs : bytes) : by
       end
   | _ => (bs, OBad)
   end.
+
+(* ---------- a container nested as the unsized tail of a struct / enum variant ----------
+   Source anchors: macros/src/items/unsized_.rs ptr_from_bytes_method (the tail gets the floored
+   slice behind LAST_FIELD_OFFSET), macros/src/items/unsized_enum.rs gen_mut_impl (as_mut: the
+   fields of the stored variant over the floored data).  Mutating a nested container through the
+   mapped value is the container operation on the sub-slice its field reference covers.
+   [tail_container t bs] = (position in bs, length, type) of the innermost container reached by
+   following the last fields of the value mapped from bs. *)
+Fixpoint tail_container (t : ty) (bs : bytes) {struct t} : option (N * N * ty) :=
+  match t with
+  | TVec _ _ | TStr _ | TFlex _ _ => Some (0, blen bs, t)
+  | TStruct false fs =>
+      let data := take (floor_mul (blen bs) (align_fields fs)) bs in
+      tail_fields fs data 0
+  | TEnum false tag _ vs =>
+      let al := umax (ialign tag) (align_variants vs) in
+      let d := data_offset tag vs in
+      match read_int tag bs with
+      | Ok v =>
+          if d <=? blen bs then
+            let data0 := drop d bs in
+            let data := take (floor_mul (blen data0) al) data0 in
+            match tail_variant vs (N.to_nat v) data with
+            | Some (p, n, ct) => Some (d + p, n, ct)
+            | None => None
+            end
+          else None
+      | _ => None
+      end
+  | _ => None
+  end
+(* [data] starts at position [pos] of the field list *)
+with tail_fields (fs : fields) (data : bytes) (pos : N) {struct fs} : option (N * N * ty) :=
+  match fs with
+  | FNil => None
+  | FCons t r =>
+      match r with
+      | FNil =>
+          match tail_container t data with
+          | Some (p, n, ct) => Some (pos + p, n, ct)
+          | None => None
+          end
+      | FCons t' _ =>
+          let np := pos_next pos t t' in
+          if np - pos <=? blen data then tail_fields r (drop (np - pos) data) np else None
+      end
+  end
+with tail_variant (vs : variants) (k : nat) (data : bytes) {struct vs} : option (N * N * ty) :=
+  match vs with
+  | VNil => None
+  | VCons fs r =>
+      match k with
+      | O => tail_fields fs data 0
+      | S k' => tail_variant r k' data
+      end
+  end.
+
+Definition nested_vec_op (pv : option N) (t : ty) (op : vop) (bs : bytes) : bytes * oout :=
+  match tail_container t bs with
+  | Some (p, n, ct) =>
+      let r := vec_op pv ct op (take n (drop p bs)) in
+      (take p bs ++ fst r ++ drop (p + n) bs, snd r)
+  | None => (bs, OBad)
+  end.
+
+Definition nested_flex_op (pv : option N) (t : ty) (a : N) (op : fop) (bs : bytes) : bytes * oout :=
+  match tail_container t bs with
+  | Some (p, n, ct) =>
+      let r := flex_op pv ct (a + p) op (take n (drop p bs)) in
+      (take p bs ++ fst r ++ drop (p + n) bs, snd r)
+  | None => (bs, OBad)
+  end.
